@@ -76,3 +76,40 @@ def np_walkers(w):
     if isinstance(w, (list, tuple)):
         return [np.asarray(w[0]), np.asarray(w[1])]
     return np.asarray(w)
+
+
+def run_small_driver(seed, wt="uhf", ad_mode=None, nblocks=12, nw=6, do_sr=True, rot=True):
+    """a complete, small driver.afqmc run (converged rhf/uhf trial, 4 orbitals) in the current directory; returns (energy, error, rows of samples_raw.dat)"""
+    import contextlib
+    import io
+
+    import jax.numpy as jnp
+
+    from ad_afqmc import config, driver, hamiltonian, propagation, sampling, wavefunctions
+    from checks.c08 import _converged_system
+
+    rng = np.random.default_rng(seed)
+    dt = 0.02
+    kind, ne, ham_t, Cs = _converged_system(wt, rng, nw, dt, None)
+    norb = 4
+    h0, h1, chol = ham_t
+    if kind == "rhf":
+        trial = wavefunctions.rhf(norb, ne)
+        wd = {"mo_coeff": jnp.array(Cs)}
+        prop = propagation.propagator_restricted(dt=dt, n_walkers=nw)
+    else:
+        trial = wavefunctions.uhf(norb, ne)
+        wd = {"mo_coeff": [jnp.array(Cs[0]), jnp.array(Cs[1])]}
+        prop = propagation.propagator_unrestricted(dt=dt, n_walkers=nw)
+    ham = hamiltonian.hamiltonian(norb)
+    hd = trials.ham_data_of(h0, h1, chol)
+    shape = (2, 1, 2)
+    smp = sampling.sampler(n_prop_steps=shape[0], n_ene_blocks=shape[1], n_sr_blocks=shape[2], n_blocks=nblocks)
+    options = {"dt": dt, "n_walkers": nw, "n_prop_steps": shape[0], "n_ene_blocks": shape[1], "n_sr_blocks": shape[2], "n_blocks": nblocks,
+               "n_ene_blocks_eql": 1, "n_sr_blocks_eql": 1, "n_eql": 2, "seed": seed % 65521, "ad_mode": ad_mode, "orbital_rotation": rot, "do_sr": do_sr,
+               "walker_type": wt, "symmetry": False, "save_walkers": False, "trial": kind, "ene0": 0.0, "free_projection": False, "n_batch": 1}
+    buf = io.StringIO()
+    with contextlib.redirect_stdout(buf):
+        e, err = driver.afqmc(hd, ham, prop, trial, wd, smp, None, options, config.not_MPI())
+    rows = np.loadtxt("samples_raw.dat").reshape(-1, 3)
+    return e, err, rows
